@@ -562,6 +562,69 @@ var devOps = func() map[string]bool {
 	return m
 }()
 
+// roundingFamily is the classic test matrix for rounding an integer of w significant bits to 53: a 53-bit prefix
+// (even / odd last kept bit, a prefix with inner bits, the all-ones prefix that carries into the next power of two)
+// followed by w-53 low bits that put the exact value at, just below and just above half an ulp, with sticky bits at
+// the bottom, in the middle and right below the guard bit (half +- 1 sits below every intermediate precision, so a
+// conversion that rounds twice -- first to p bits for any 53 < p < w, then to 53 -- is wrong on one of these).
+func roundingFamily(thorough bool) []*big.Int {
+	widths := []int{54, 56, 61, 64, 65, 66, 70, 100, 128, 1023, 1024}
+	if thorough {
+		widths = nil
+		for w := 54; w <= 72; w++ {
+			widths = append(widths, w)
+		}
+		widths = append(widths, 80, 100, 117, 128, 129, 192, 512, 1023, 1024)
+	}
+	prefixes := []*big.Int{pow2(52), new(big.Int).Add(pow2(52), big.NewInt(1)), new(big.Int).Add(pow2(52), pow2(30)),
+		new(big.Int).Add(pow2(52), big.NewInt(0x2aaaaaaaaaaab)), new(big.Int).Sub(pow2(53), big.NewInt(1))}
+	if !thorough {
+		prefixes = append(prefixes[:2], prefixes[3:]...) // quick: even, odd, inner bits, all ones
+	}
+	var out []*big.Int
+	seen := map[string]bool{}
+	for _, w := range widths {
+		r := uint(w - 53)
+		half := pow2(r - 1)
+		add := func(a *big.Int, d int64) *big.Int { return new(big.Int).Add(a, big.NewInt(d)) }
+		lows := []*big.Int{big.NewInt(0), big.NewInt(1), half, add(half, -1), add(half, 1), new(big.Int).Sub(pow2(r), big.NewInt(1))}
+		ks := []uint{r / 2}
+		if r >= 3 {
+			ks = append(ks, r-2)
+		}
+		if r >= 14 {
+			ks = append(ks, r-12, r-13) // just below / at a 64-bit intermediate precision
+		}
+		if thorough {
+			for k := uint(1); k+1 < r && k <= 8; k++ {
+				ks = append(ks, k, r-1-k)
+			}
+		}
+		for _, k := range ks {
+			if k == 0 || k+1 >= r {
+				continue
+			}
+			lows = append(lows, new(big.Int).Add(half, pow2(k)), // above half by one middle bit
+				add(new(big.Int).Sub(half, pow2(k)), 1),                              // 0 1..1 0..0 1: below half
+				add(new(big.Int).Add(new(big.Int).Sub(half, pow2(k)), pow2(k-1)), 1), // below half, tail above half of bit k
+				new(big.Int).Sub(half, pow2(k)))
+		}
+		for _, p := range prefixes {
+			for _, lo := range lows {
+				if lo.Sign() < 0 || lo.BitLen() > int(r) {
+					continue
+				}
+				n := new(big.Int).Add(new(big.Int).Lsh(p, r), lo)
+				if !seen[n.String()] {
+					seen[n.String()] = true
+					out = append(out, n)
+				}
+			}
+		}
+	}
+	return out
+}
+
 type gen struct {
 	rng   *rand.Rand
 	env   *common.Env
@@ -676,6 +739,43 @@ func (g *gen) generate() (int, int) {
 			g.both(Case{Op: "truediv", X: VI(i), Y: VI(j)}, pe)
 		}
 		g.both(Case{Op: "float", X: VI(i)}, 0.5)
+	}
+	// the rounding-position family for int -> float (see roundingFamily): every combination of last kept bit, guard
+	// bit, round bits and sticky tail, as operand of float(), of mixed + * / and of exact comparisons with its two
+	// neighbouring doubles
+	one, zero := VF(1.0), VF(0.0)
+	for k, n := range roundingFamily(th) {
+		neg := new(big.Int).Neg(n)
+		g.both(Case{Op: "float", X: VI(n)}, 0.2)
+		if th || k%2 == 1 {
+			g.both(Case{Op: "float", X: VI(neg)}, 0.1)
+		}
+		m := n
+		if k%4 == 3 {
+			m = neg
+		}
+		g.both(Case{Op: "truediv", X: VI(m), Y: one}, 0.1)
+		if k%2 == 0 {
+			g.both(Case{Op: "add", X: VI(m), Y: zero}, 0.1)
+			g.both(Case{Op: "mul", X: one, Y: VI(m)}, 0.1)
+		} else {
+			g.both(Case{Op: "add", X: zero, Y: VI(m)}, 0.1)
+			g.both(Case{Op: "mul", X: VI(m), Y: one}, 0.1)
+		}
+		// the doubles just below and above |n| (the 53-bit prefix and its successor: exact by construction)
+		r := uint(n.BitLen() - 53)
+		down := new(big.Int).Lsh(new(big.Int).Rsh(n, r), r)
+		up := new(big.Int).Add(down, pow2(r))
+		for j, d := range []*big.Int{down, up} {
+			f, acc := new(big.Float).SetInt(d).Float64()
+			if acc != big.Exact || math.IsInf(f, 0) {
+				continue
+			}
+			g.add(Case{Op: []string{"eq", "lt", "ge", "ne", "gt", "le"}[(k+3*j)%6], X: VI(n), Y: VF(f)})
+			if k%3 == 0 {
+				g.add(Case{Op: []string{"gt", "eq", "le"}[(k/3+j)%3], X: VF(-f), Y: VI(neg)})
+			}
+		}
 	}
 	// unary operators and conversions on every lattice double; text -> float on spellings of it
 	for _, a := range fl {
